@@ -68,8 +68,6 @@ def _subst(expr, env):
     def hook(n):
         if isinstance(n, ast.Name) and n.id in env:
             return _copy(env[n.id])
-        if isinstance(n, ast.Lambda):
-            return _copy(n) if False else None
         return None
     return _copy_with(expr, hook)
 
@@ -1128,3 +1126,864 @@ def alias(repo, out):
                         chk.bad(st[0].stmt, f'stores `{astx.src(v)}` instead of `{ps[2]}`', 'setval-value')
                     break
             chk.ok(fn.node, f'_views[{ps[1]}].view[{ps[3]}] = {ps[2]}')
+
+
+# --------------------------------------------------------------------------- layout (running offsets)
+def _ladd(a, b, sign=1):
+    out = dict(a)
+    for k, v in b.items():
+        out[k] = out.get(k, 0) + sign * v
+        if out[k] == 0:
+            del out[k]
+    return out
+
+
+def lin(e, env):
+    """Linear form {symbol: coeff, '': const} of an integer expression over the names in env."""
+    if isinstance(e, ast.Constant) and isinstance(e.value, int) and not isinstance(e.value, bool):
+        return {'': e.value} if e.value else {}
+    if isinstance(e, ast.Name) and e.id in env:
+        return dict(env[e.id])
+    if isinstance(e, ast.BinOp) and isinstance(e.op, (ast.Add, ast.Sub)):
+        return _ladd(lin(e.left, env), lin(e.right, env), 1 if isinstance(e.op, ast.Add) else -1)
+    if isinstance(e, ast.Name):
+        return {'n:' + e.id: 1}
+    return {'x:' + astx.dump(e): 1}
+
+
+def _fmt_lin(l):
+    if not l:
+        return '0'
+    parts = []
+    for k, v in sorted(l.items()):
+        nm = {'': '1', '@S': 'offset'}.get(k, 'size' if k.startswith('x:') else k)
+        parts.append(f'{v:+d}*{nm}')
+    return ' '.join(parts)
+
+
+S0 = {'@S': 1}
+
+
+class Layout:
+    """Abstract execution of one iteration of a running-offset loop."""
+
+    def __init__(self, fn, loop, g, rd):
+        self.fn, self.loop = fn, loop
+        hdr = g.nodes_of(loop)[0]
+        body = set(g.body_nodes(loop))
+        assigned = set()
+        for st in loop.body:
+            if isinstance(st, (ast.Assign, ast.AugAssign)):
+                for t in astx.assigned_targets(st):
+                    if isinstance(t, ast.Name):
+                        assigned.add(t.id)
+        self.carried = {}
+        self.problem = None
+        for nm in sorted(assigned):
+            outside = [d for d in rd.defs(hdr, nm) if d not in body]
+            if not outside:
+                continue
+            for d in outside:
+                v = d.ast.value if d.kind == 'stmt' and isinstance(d.ast, ast.Assign) else None
+                if not (isinstance(v, ast.Constant) and isinstance(v.value, int)):
+                    self.problem = ('unsure', d.ast if d.kind == 'stmt' else loop,
+                                    f'initial value of `{nm}` is not a literal')
+                elif v.value != 0:
+                    self.problem = ('bad', d.ast, f'`{nm}` starts at {v.value}: the first variable must start '
+                                    'at offset 0 of the array')
+            self.carried[nm] = dict(S0)
+        # loop-invariant integer locals (e.g. an offset that is never advanced) are literals
+        self.const = {}
+        read = {n.id for st in loop.body for n in astx.walk(st) if isinstance(n, ast.Name)} - assigned
+        for nm in sorted(read):
+            ds = rd.defs(hdr, nm)
+            vals = {d.ast.value.value for d in ds if d.kind == 'stmt' and isinstance(d.ast, ast.Assign) and
+                    isinstance(d.ast.value, ast.Constant) and isinstance(d.ast.value.value, int) and
+                    not isinstance(d.ast.value.value, bool)}
+            if ds and len(vals) == 1 and all(d.kind == 'stmt' and isinstance(d.ast, ast.Assign) and
+                                             isinstance(d.ast.value, ast.Constant) for d in ds):
+                v = vals.pop()
+                self.const[nm] = {'': v} if v else {}
+
+    def run(self, range_of):
+        """Execute the body; range_of(stmt) -> (lower expr, upper expr) or None.  Returns
+        (lower lin, upper lin, post env, stmt of the range use) or raises Unsup."""
+        env = dict(self.const)
+        env.update(self.carried)
+        found = None
+        for st in self.loop.body:
+            r = range_of(st)
+            if r is not None:
+                if found is not None:
+                    raise Unsup(st, 'more than one range per iteration')
+                found = (lin(r[0], env), lin(r[1], env), st)
+            if isinstance(st, ast.Assign):
+                if isinstance(st.value, (ast.Constant, ast.Name, ast.BinOp, ast.Call, ast.Attribute)) and \
+                        all(isinstance(t, ast.Name) for t in st.targets):
+                    v = lin(st.value, env)
+                    for t in st.targets:
+                        env[t.id] = v
+                elif any(isinstance(t, ast.Name) and t.id in env for t in astx.assigned_targets(st)):
+                    raise Unsup(st, 'offset assigned in an unrecognised way')
+            elif isinstance(st, ast.AugAssign):
+                if isinstance(st.target, ast.Name):
+                    if not isinstance(st.op, (ast.Add, ast.Sub)):
+                        raise Unsup(st, 'non-additive offset update')
+                    cur = env.get(st.target.id, {'n:' + st.target.id: 1})
+                    env[st.target.id] = _ladd(cur, lin(st.value, env), 1 if isinstance(st.op, ast.Add) else -1)
+            elif isinstance(st, ast.Expr):
+                pass
+            else:
+                raise Unsup(st, f'{type(st).__name__} inside the offset loop')
+        if found is None:
+            raise Unsup(self.loop, 'no range use found in the loop')
+        return found[0], found[1], env, found[2]
+
+
+def check_layout(chk, lay, range_of, size_ok):
+    """size_ok(symbol dump) -> True if the symbol is this variable's own size."""
+    if lay.problem:
+        kind, node, why = lay.problem
+        (chk.bad(node, why, 'layout-start') if kind == 'bad' else chk.unsure(node, why))
+        return
+    if not lay.carried:
+        chk.unsure(lay.loop, 'no running offset carried around the loop')
+        return
+    try:
+        lo, hi, env, st = lay.run(range_of)
+    except Unsup as u:
+        chk.unsure(u.node, u.why)
+        return
+    syms = {k for l in [lo, hi] + [env[c] for c in lay.carried] for k in l if k.startswith(('x:', 'n:'))}
+    if len(syms) != 1 or not next(iter(syms)).startswith('x:'):
+        chk.unsure(st, f'offsets depend on {len(syms)} size expressions')
+        return
+    L = next(iter(syms))
+    if not size_ok(L[2:]):
+        chk.unsure(st, 'size expression of the variable not recognised')
+        return
+    if lo != S0:
+        chk.bad(st, f'range starts at {_fmt_lin(lo)} instead of the running offset: variables overlap or '
+                'leave gaps', 'layout-range')
+        return
+    if _ladd(hi, lo, -1) != {L: 1}:
+        chk.bad(st, f'range length is {_fmt_lin(_ladd(hi, lo, -1))} instead of the size of the variable',
+                'layout-range')
+        return
+    for c in sorted(lay.carried):
+        if env[c] != hi:
+            chk.bad(lay.loop, f'after one variable `{c}` is {_fmt_lin(env[c])} but the range ended at '
+                    f'{_fmt_lin(hi)}: the next variable does not start where this one ends', 'layout-advance')
+            return
+    chk.ok(st, 'range = (offset, offset + size); all running offsets advance to the end of the range')
+
+
+def _find_loops(fn, pred):
+    return [st for st in astx.walk_stmts(fn.node.body) if isinstance(st, ast.For) and
+            any(pred(n) for s in st.body for n in astx.walk(s))]
+
+
+def _vecdata_call(n):
+    return isinstance(n, ast.Call) and astx.callee_attr(n) == '_VecData' and len(n.args) == 2
+
+
+@rule('C33.layout', floor=2)
+def layout(repo, out):
+    """Running offsets tile the data array contiguously from 0 with each variable's own size."""
+    fn = repo.func(DVEC, 'DefaultVector._initialize_data')
+    chk = Chk(out, fn, 'initialize_data')
+    loops = _find_loops(fn, _vecdata_call)
+    if len(loops) != 1:
+        raise AnalysisError(f'{fn.ident}: expected one loop creating _VecData, found {len(loops)}')
+    g = cfgm.build(fn)
+    rd = cfgm.ReachingDefs(g)
+    lay = Layout(fn, loops[0], g, rd)
+    shape_args = []
+
+    def range_of(st):
+        for n in astx.walk(st):
+            if _vecdata_call(n):
+                r = n.args[1]
+                shape_args.append(n.args[0])
+                if isinstance(r, ast.Tuple) and len(r.elts) == 2:
+                    return r.elts
+                raise Unsup(st, 'range argument of _VecData is not a 2-tuple')
+        return None
+
+    def size_ok(sym):
+        return any(sym in (astx.dump(ast.Call(func=ast.Name(id='shape_to_len', ctx=ast.Load()),
+                                              args=[_copy(a)], keywords=[])),) for a in shape_args)
+    check_layout(chk, lay, range_of, size_ok)
+
+    fn = repo.func(VEC, 'Vector._get_local_views')
+    chk = Chk(out, fn, 'get_local_views')
+    ps = params(fn)
+    arr = ps[1] if len(ps) == 2 else None
+
+    def arr_slice(n):
+        return isinstance(n, ast.Subscript) and isinstance(n.slice, ast.Slice) and is_name(n.value, arr)
+    loops = _find_loops(fn, arr_slice)
+    if arr is None or len(loops) != 1:
+        raise AnalysisError(f'{fn.ident}: expected one loop slicing the array argument')
+    g = cfgm.build(fn)
+    rd = cfgm.ReachingDefs(g)
+    lay = Layout(fn, loops[0], g, rd)
+    tnames = {t.id for t in astx.assigned_targets(loops[0]) if isinstance(t, ast.Name)}
+    reshapes = []
+
+    def range_of2(st):
+        for n in astx.walk(st):
+            if arr_slice(n):
+                if n.slice.step is not None or n.slice.lower is None or n.slice.upper is None:
+                    raise Unsup(st, 'slice without explicit bounds')
+                par = getattr(n, '_parent', None)
+                if isinstance(par, ast.Attribute) and par.attr == 'reshape':
+                    reshapes.append(par._parent)
+                return n.slice.lower, n.slice.upper
+        return None
+
+    def size_ok2(sym):
+        return any(sym == _K(f'{t}.size') for t in tnames)
+    check_layout(chk, lay, range_of2, size_ok2)
+
+
+# --------------------------------------------------------------------------- view (named views alias the data)
+_COPY_ANY = set(_COPY_METHS) | {'real_if_close'}
+
+
+def _has_copy_call(e):
+    for n in ast.walk(e):
+        if isinstance(n, ast.Call):
+            if isinstance(n.func, ast.Attribute) and n.func.attr in _COPY_METHS:
+                return n
+            if astx.call_name(n) in _COPY_FUNCS + ('np.ascontiguousarray', 'np.zeros_like', 'np.empty_like'):
+                return n
+    return None
+
+
+def _unwrap_alias(e, shape_key):
+    """Strip aliasing wrappers (.view(), .reshape(self.shape)); returns (inner, reshaped?, problem)."""
+    reshaped = False
+    while isinstance(e, ast.Call):
+        f = e.func
+        if isinstance(f, ast.Attribute) and f.attr == 'view' and not e.args and not e.keywords:
+            e = f.value
+        elif isinstance(f, ast.Attribute) and f.attr == 'reshape' and not e.keywords and e.args:
+            a = e.args[0] if len(e.args) == 1 else ast.Tuple(elts=list(e.args), ctx=ast.Load())
+            if astx.dump(a) != shape_key:
+                return e, reshaped, f'reshapes to `{astx.src(a)}`'
+            reshaped = True
+            e = f.value
+        elif astx.call_name(e) in ('np.reshape', 'numpy.reshape') and len(e.args) == 2 and not e.keywords:
+            if astx.dump(e.args[1]) != shape_key:
+                return e, reshaped, f'reshapes to `{astx.src(e.args[1])}`'
+            reshaped = True
+            e = e.args[0]
+        else:
+            break
+    return e, reshaped, None
+
+
+@rule('C33.view', floor=3)
+def view(repo, out):
+    """_VecData ranges, sizes and views are basic slices (aliases) of the array finally bound to _data."""
+    # (a) _VecData.__init__(shape, rng)
+    fn = repo.func(VEC, '_VecData.__init__')
+    chk = Chk(out, fn, 'vecdata-init')
+    ps = params(fn)
+    sts = _paths_or_unsure(chk)
+    if sts is not None:
+        if len(ps) != 3 or len(sts) != 1:
+            chk.unsure(fn.node, 'signature is not (self, shape, rng) / not straight-line')
+        else:
+            rng = ps[2]
+            stores = {}
+            for ev in sts[0].events:
+                if ev.kind == 'store' and astx.path(ev.a):
+                    stores[astx.path(ev.a)] = ev
+            r, s = stores.get('self.range'), stores.get('self.size')
+            if r is None or s is None:
+                chk.unsure(fn.node, 'self.range / self.size not assigned')
+            else:
+                if not is_name(r.b, rng):
+                    (chk.unsure if rng in astx.names(r.b) else
+                     (lambda n, w: chk.bad(n, w, 'range')))(r.stmt, f'self.range is `{astx.src(r.b)}`, not `{rng}`')
+                want = _K(f'{rng}[1] - {rng}[0]')
+                if astx.dump(s.b) != want:
+                    l = lin(s.b, {})
+                    if l == {'x:' + _K(f'{rng}[1]'): 1, 'x:' + _K(f'{rng}[0]'): -1}:
+                        pass
+                    elif all(k.startswith('x:') and k[2:] in (_K(f'{rng}[1]'), _K(f'{rng}[0]')) or k == ''
+                             for k in l):
+                        chk.bad(s.stmt, f'self.size is `{astx.src(s.b)}`, not `{rng}[1] - {rng}[0]`: consumers '
+                                'that rebuild offsets from sizes (_get_local_views) disagree with the ranges',
+                                'size')
+                    else:
+                        chk.unsure(s.stmt, f'self.size is `{astx.src(s.b)}`')
+                chk.ok(fn.node, f'range = {rng}; size = {rng}[1] - {rng}[0]')
+
+    # (b) _VecData.set_view(data)
+    fn = repo.func(VEC, '_VecData.set_view')
+    chk = Chk(out, fn, 'set_view')
+    ps = params(fn)
+    sts = _paths_or_unsure(chk)
+    if sts is not None:
+        if len(ps) != 2:
+            chk.unsure(fn.node, 'signature is not (self, data)')
+            sts = []
+        d = ps[1] if len(ps) == 2 else None
+        n_resh = 0
+        for st in sts:
+            stores = {}
+            for ev in st.events:
+                if ev.kind == 'store' and astx.path(ev.a):
+                    stores[astx.path(ev.a)] = ev
+                elif ev.kind not in ('store', 'return'):
+                    chk.unsure(ev.stmt, f'unrecognised statement `{astx.src(ev.stmt)}`')
+            fl, vw = stores.get('self.flat'), stores.get('self.view')
+            if fl is None or vw is None:
+                chk.bad(fn.node, 'self.flat / self.view not assigned on every path: the variable keeps no view '
+                        '(or a stale one) of the data', 'view-missing')
+                break
+            f = fl.b
+            c = _has_copy_call(f) or _has_copy_call(vw.b)
+            if c is not None:
+                chk.bad(fl.stmt, f'`{astx.src(c)}` copies: the named view no longer aliases the vector data',
+                        'view-copy')
+                break
+            if not (isinstance(f, ast.Subscript) and isinstance(f.slice, ast.Slice)):
+                chk.unsure(fl.stmt, f'self.flat is `{astx.src(f)}`, not a basic slice')
+                break
+            if not is_name(f.value, d):
+                (chk.unsure if d in astx.names(f.value) else
+                 (lambda n, w: chk.bad(n, w, 'view-base')))(fl.stmt, f'self.flat slices `{astx.src(f.value)}`, '
+                                                            f'not the array `{d}` handed in')
+                break
+            lo, hi = f.slice.lower, f.slice.upper
+            k0, k1 = _K('self.range[0]'), _K('self.range[1]')
+            if f.slice.step is not None or lo is None or hi is None or \
+                    (astx.dump(lo), astx.dump(hi)) != (k0, k1):
+                got = (astx.dump(lo), astx.dump(hi))
+                if f.slice.step is not None or got == (k1, k0) or (set(got) <= {k0, k1, 'None'}):
+                    chk.bad(fl.stmt, f'self.flat is `{astx.src(f)}`: it must be {d}[range[0]:range[1]]',
+                            'view-bounds')
+                else:
+                    chk.unsure(fl.stmt, f'slice bounds of `{astx.src(f)}` not recognised')
+                break
+            inner, resh, prob = _unwrap_alias(vw.b, _K('self.shape'))
+            if prob:
+                chk.unsure(vw.stmt, f'self.view {prob}')
+                break
+            if astx.dump(inner) != astx.dump(f):
+                if isinstance(inner, ast.Subscript) and is_name(inner.value, d):
+                    chk.bad(vw.stmt, f'self.view is built from `{astx.src(inner)}` but self.flat from '
+                            f'`{astx.src(f)}`', 'view-bounds')
+                else:
+                    chk.unsure(vw.stmt, f'self.view is `{astx.src(vw.b)}`')
+                break
+            n_resh += resh
+        if sts and not n_resh and chk.state is None:
+            chk.bad(fn.node, 'self.view is never reshaped to self.shape: multi-dimensional variables are '
+                    'exposed flat', 'view-shape')
+        chk.ok(fn.node, f'flat = {d}[range[0]:range[1]]; view = flat or flat.view().reshape(shape)')
+
+    # (c) DefaultVector._initialize_data binds every view to the final self._data
+    fn = repo.func(DVEC, 'DefaultVector._initialize_data')
+    chk = Chk(out, fn, 'bind-views')
+    g = cfgm.build(fn)
+    rd = cfgm.ReachingDefs(g)
+    calls = g.calling('set_view')
+    datadefs = g.where(lambda n: n.kind == 'stmt' and isinstance(n.ast, ast.Assign) and
+                       any(astx.path(t) == 'self._data' for t in astx.assigned_targets(n.ast)))
+    if not calls:
+        chk.bad(fn.node, 'set_view is never called: the variables have no views of the data', 'bind-missing')
+    elif not datadefs:
+        chk.unsure(fn.node, 'self._data is not assigned here')
+    for n in calls:
+        call = next(c for c in n.calls() if astx.callee_attr(c) == 'set_view')
+        loop = astx.enclosing(n.ast, (ast.For,))
+        ok_iter = False
+        if loop is not None and isinstance(loop.iter, ast.Call) and astx.callee_attr(loop.iter) == 'values' and \
+                isinstance(loop.target, ast.Name) and is_name(astx.receiver(call), loop.target.id):
+            rc = astx.receiver(loop.iter)
+            hdr = g.nodes_of(loop)[0]
+            if astx.path(rc) == 'self._views':
+                ok_iter = True
+            elif isinstance(rc, ast.Name):
+                ds = rd.defs(hdr, rc.id)
+                ok_iter = bool(ds) and all(d.kind == 'stmt' and isinstance(d.ast, ast.Assign) and
+                                           any(astx.path(t) == 'self._views' for t in d.ast.targets)
+                                           for d in ds)
+        if not ok_iter:
+            chk.unsure(n.ast, 'set_view is not called for every entry of self._views.values()')
+            continue
+        hdr = g.nodes_of(loop)[0]
+        if len(call.args) != 1:
+            chk.unsure(n.ast, 'set_view arguments')
+            continue
+        a = call.args[0]
+        at = n
+        if isinstance(a, ast.Name):
+            ds = rd.defs(n, a.id)
+            if len(ds) != 1 or not (next(iter(ds)).kind == 'stmt' and isinstance(next(iter(ds)).ast, ast.Assign)):
+                chk.unsure(n.ast, f'`{a.id}` has several definitions')
+                continue
+            at = next(iter(ds))
+            a = at.ast.value
+        if astx.path(a) != 'self._data':
+            c = _has_copy_call(a)
+            if c is not None and 'self' in astx.names(a):
+                chk.bad(n.ast, f'views are taken of `{astx.src(a)}`, a copy of self._data', 'bind-copy')
+            elif isinstance(a, ast.Attribute) and a.attr in ('real', 'imag') and astx.path(a.value) == 'self._data':
+                chk.bad(n.ast, f'views are taken of `{astx.src(a)}`: they cannot hold the complex-step part',
+                        'bind-copy')
+            elif astx.path(a) and astx.path(a).endswith('._data'):
+                chk.bad(n.ast, f'views are taken of `{astx.src(a)}`, not of self._data', 'bind-copy')
+            else:
+                chk.unsure(n.ast, f'views are taken of `{astx.src(a)}`')
+            continue
+        late = g.reach(g.normal_succ(at), labels=cfgm.noexc) & set(datadefs)
+        if late:
+            chk.bad(next(iter(late)).ast, 'self._data is rebound after the views were taken: named views alias '
+                    'the old array', 'bind-order')
+            continue
+        w = g.must_pass([g.entry], [at], datadefs, labels=cfgm.noexc)
+        if w is not None:
+            chk.bad(n.ast, 'views can be taken before self._data is assigned: ' + g.fmt_path(w), 'bind-order')
+            continue
+        w = g.must_pass([g.entry], [g.exit], [hdr], labels=cfgm.noexc)
+        if w is not None:
+            chk.bad(loop, 'the views are not (re)bound on every path: ' + g.fmt_path(w), 'bind-missing')
+            continue
+        chk.ok(n.ast, 'every _VecData gets a view of self._data after its final assignment, on every path')
+
+
+# --------------------------------------------------------------------------- subvec
+PSLICE = 'self._parent_slice'
+
+
+@rule('C33.subvec', floor=4)
+def subvec(repo, out):
+    """A sub-vector, its scaler and its adder are one and the same slice of the parent's arrays."""
+    fn = repo.func(DVEC, 'DefaultVector._initialize_data')
+    ps = params(fn)
+    if len(ps) < 2:
+        raise AnalysisError(f'{fn.ident}: parent vector parameter not found')
+    par = ps[1]
+    g = cfgm.build(fn)
+    rd = cfgm.ReachingDefs(g)
+    lay_loops = _find_loops(fn, _vecdata_call)
+    if len(lay_loops) != 1:
+        raise AnalysisError(f'{fn.ident}: layout loop not found')
+    lay = Layout(fn, lay_loops[0], g, rd)
+    totals = set(lay.carried)          # names that hold the total local size after the layout loop
+    body_l = set(g.body_nodes(lay_loops[0]))
+
+    def total_name(e, at):
+        """True if e is a name holding the total size at node `at` (all its defs are the layout's)."""
+        if not (isinstance(e, ast.Name) and e.id in totals):
+            return False
+        ds = rd.defs(at, e.id)
+        return bool(ds) and all(d in body_l or (d.kind == 'stmt' and isinstance(d.ast, ast.Assign) and
+                                                isinstance(d.ast.value, ast.Constant) and d.ast.value.value == 0)
+                                for d in ds)
+
+    # the root / non-root split
+    split = [st for st in astx.walk_stmts(fn.node.body) if isinstance(st, ast.If) and
+             astx.dump(st.test) in (_K(f'{par} is None'), _K(f'{par} is not None'))]
+    if len(split) != 1:
+        raise AnalysisError(f'{fn.ident}: `if {par} is None` not found')
+    split = split[0]
+    root_is_body = astx.dump(split.test) == _K(f'{par} is None')
+    root_stmts = split.body if root_is_body else split.orelse
+    sub_stmts = split.orelse if root_is_body else split.body
+
+    # ---- root: _parent_slice = slice(0, total); _data = np.zeros(total)
+    chk = Chk(out, fn, 'root')
+    ps_def = [st for st in astx.walk_stmts(root_stmts) if isinstance(st, ast.Assign) and
+              any(astx.path(t) == PSLICE for t in st.targets)]
+    dt_def = [st for st in astx.walk_stmts(root_stmts) if isinstance(st, ast.Assign) and
+              any(astx.path(t) == 'self._data' for t in st.targets)]
+    if len(ps_def) != 1 or len(dt_def) != 1:
+        chk.unsure(split, 'root branch does not assign _parent_slice and _data exactly once')
+    else:
+        v = dt_def[0].value
+        at = g.nodes_of(dt_def[0])[0]
+        if not (isinstance(v, ast.Call) and astx.call_name(v) in ('np.zeros', 'numpy.zeros') and v.args):
+            chk.unsure(dt_def[0], f'root data is `{astx.src(v)}`')
+        elif not total_name(v.args[0], at):
+            l = lin(v.args[0], {t: {t: 1} for t in totals})
+            if isinstance(v.args[0], ast.Name) or any(k in totals for k in l):
+                chk.bad(dt_def[0], f'root array has length `{astx.src(v.args[0])}`, not the total size of the '
+                        'variables: the last views are truncated or the array has a tail no view covers',
+                        'root-size')
+            else:
+                chk.unsure(dt_def[0], f'root array length `{astx.src(v.args[0])}`')
+        s = ps_def[0].value
+        if chk.state is None:
+            if not (isinstance(s, ast.Call) and astx.call_name(s) == 'slice' and len(s.args) == 2):
+                chk.unsure(ps_def[0], f'root slice `{astx.src(s)}`')
+            elif not (isinstance(s.args[0], ast.Constant) and s.args[0].value == 0 and
+                      total_name(s.args[1], g.nodes_of(ps_def[0])[0])):
+                chk.bad(ps_def[0], f'root _parent_slice is `{astx.src(s)}`, not slice(0, total size)', 'root-size')
+        chk.ok(dt_def[0], 'root: _data = zeros(total size), _parent_slice = slice(0, total size)')
+
+    # ---- non-root: offset of the first variable in the parent
+    chk = Chk(out, fn, 'sub')
+    floops = [st for st in sub_stmts if isinstance(st, ast.For)]
+    if len(floops) != 1:
+        chk.unsure(split, 'first-variable loop not found in the sub-vector branch')
+        return
+    fl = floops[0]
+    if not (isinstance(fl.target, ast.Name) and fl.body and isinstance(fl.body[-1], ast.Break)):
+        if isinstance(fl.target, ast.Name) and not any(isinstance(x, ast.Break) for x in astx.walk_stmts(fl.body)):
+            chk.bad(fl, 'the loop does not stop at the first variable: the offset of the last variable is used',
+                    'sub-first')
+        else:
+            chk.unsure(fl, 'first-variable idiom not recognised')
+        return
+    vname = fl.target.id
+    it_ok = astx.path(fl.iter) == 'self._views' or (
+        isinstance(fl.iter, ast.Name) and all(
+            d.kind == 'stmt' and isinstance(d.ast, ast.Assign) and
+            any(astx.path(t) == 'self._views' for t in d.ast.targets)
+            for d in rd.defs(g.nodes_of(fl)[0], fl.iter.id)) and rd.defs(g.nodes_of(fl)[0], fl.iter.id))
+    if not it_ok:
+        chk.unsure(fl, f'`{astx.src(fl.iter)}` is not the local variable table')
+        return
+    env = {t: {t: 1} for t in totals}
+    pslice = data = None
+    for st in fl.body[:-1]:
+        if isinstance(st, ast.Assign) and len(st.targets) == 1:
+            p = astx.path(st.targets[0])
+            if isinstance(st.targets[0], ast.Name):
+                env[p] = lin(st.value, env)
+                continue
+            if p == PSLICE:
+                pslice = st
+                continue
+            if p == 'self._data':
+                data = st
+                continue
+        chk.unsure(st, f'unrecognised statement `{astx.src(st)}`')
+        return
+    if pslice is None or data is None:
+        chk.unsure(fl, '_parent_slice / _data not assigned for the first variable')
+        return
+    s = pslice.value
+    if not (isinstance(s, ast.Call) and astx.call_name(s) == 'slice' and len(s.args) == 2 and not s.keywords):
+        chk.unsure(pslice, f'`{astx.src(s)}` is not slice(a, b)')
+        return
+    # names in env that were assigned in this loop body shadow the totals
+    lo, hi = lin(s.args[0], env), lin(s.args[1], env)
+    want_off = {'x:' + _K(f'{par}._views[{vname}].range[0]'): 1}
+    if lo != want_off:
+        alt = {'x:' + _K(f'{par}._views[{vname}].range[1]'): 1}
+        if lo == alt or all(k in totals or k == '' for k in lo):
+            chk.bad(pslice, f'sub-vector starts at {_fmt_lin(lo) if lo != alt else "the END of its first variable"}'
+                    f' instead of {par}._views[{vname}].range[0]', 'sub-offset')
+        else:
+            chk.unsure(pslice, f'start `{astx.src(s.args[0])}` not recognised')
+        return
+    ln = _ladd(hi, lo, -1)
+    tot = [t for t in totals if ln == {t: 1}]
+    if not tot:
+        if all(k in totals or k == '' or k in want_off for k in ln):
+            chk.bad(pslice, f'sub-vector length is {_fmt_lin(ln)} (upper bound `{astx.src(s.args[1])}`) instead of '
+                    'the total size of its variables: only a sub-vector that starts at 0 is right', 'sub-length')
+        else:
+            chk.unsure(pslice, f'upper bound `{astx.src(s.args[1])}` not recognised')
+        return
+    # the total must really be the total here (not overwritten by the offset)
+    at = g.nodes_of(pslice)[0]
+    ds = rd.defs(at, tot[0])
+    if not all(d in body_l or (d.kind == 'stmt' and isinstance(d.ast, ast.Assign) and
+                               isinstance(d.ast.value, ast.Constant)) for d in ds):
+        chk.bad(pslice, f'`{tot[0]}` no longer holds the total size when the slice is built', 'sub-length')
+        return
+    chk.ok(pslice, f'slice(offset of first variable in parent, offset + total size)')
+
+    chk = Chk(out, fn, 'sub-data')
+    v = data.value
+    if _has_copy_call(v) is not None:
+        chk.bad(data, f'`{astx.src(v)}` copies the parent data: the sub-vector no longer aliases its parent',
+                'sub-alias')
+    elif not (isinstance(v, ast.Subscript) and astx.path(v.value) == f'{par}._data'):
+        chk.unsure(data, f'sub-vector data is `{astx.src(v)}`')
+    elif astx.dump(v.slice) != _K(PSLICE) and astx.dump(v.slice) != astx.dump(s):
+        chk.bad(data, f'sub-vector data is `{astx.src(v)}`, not {par}._data[{PSLICE}]', 'sub-alias')
+    elif g.nodes_of(data)[0] not in g.reach(g.normal_succ(at), labels=cfgm.noexc) and \
+            astx.dump(v.slice) == _K(PSLICE):
+        chk.bad(data, '_parent_slice is used before it is assigned', 'sub-alias')
+    chk.ok(data, f'_data = {par}._data[_parent_slice] (a view)')
+
+    # ---- scaling arrays of the parent are cut with the same slice
+    chk = Chk(out, fn, 'sub-scaling')
+    unpack = [st for st in astx.walk_stmts(sub_stmts) if isinstance(st, ast.Assign) and
+              astx.path(st.value) == f'{par}._scaling' and len(st.targets) == 1 and
+              isinstance(st.targets[0], ast.Tuple) and len(st.targets[0].elts) == 2 and
+              all(isinstance(x, ast.Name) for x in st.targets[0].elts)]
+    sc_def = [st for st in astx.walk_stmts(sub_stmts) if isinstance(st, ast.Assign) and
+              any(astx.path(t) == 'self._scaling' for t in st.targets)]
+    if len(unpack) != 1 or len(sc_def) != 1:
+        chk.unsure(split, 'scaling hand-down idiom not recognised')
+        return
+    scaler, adder = (x.id for x in unpack[0].targets[0].elts)
+    subs = [n for st in astx.walk_stmts(sub_stmts) for n in astx.walk(st)
+            if isinstance(n, ast.Subscript) and isinstance(n.value, ast.Name) and n.value.id in (scaler, adder)
+            and isinstance(getattr(n, 'ctx', None), ast.Load)]
+    for n in subs:
+        if astx.dump(n.slice) != _K(PSLICE):
+            chk.bad(astx.stmt_of(n), f'`{astx.src(n)}`: the parent {("scaler" if n.value.id == scaler else "adder")} '
+                    f'is not cut with {PSLICE}, the slice the data was cut with', 'sub-scaling')
+    tv = sc_def[0].value
+    if not (isinstance(tv, ast.Tuple) and len(tv.elts) == 2):
+        chk.unsure(sc_def[0], f'self._scaling = `{astx.src(tv)}`')
+        return
+    e0, e1 = tv.elts
+    if is_name(e0, scaler) and not any(isinstance(d.ast, ast.Assign) and d.ast is not unpack[0]
+                                       for d in rd.defs(g.nodes_of(sc_def[0])[0], scaler) if d.kind == 'stmt'):
+        chk.bad(sc_def[0], 'the whole parent scaler is handed to the sub-vector (not sliced)', 'sub-scaling')
+    elif not (isinstance(e0, ast.Subscript) and is_name(e0.value, scaler)) and not is_name(e0, scaler):
+        chk.unsure(sc_def[0], f'scaler `{astx.src(e0)}`')
+    if is_name(e1, adder):
+        ds = [d for d in rd.defs(g.nodes_of(sc_def[0])[0], adder) if d.kind == 'stmt' and d.ast is not unpack[0]]
+        sliced = [d for d in ds if isinstance(d.ast, ast.Assign) and isinstance(d.ast.value, ast.Subscript)
+                  and is_name(d.ast.value.value, adder)]
+        if not sliced:
+            chk.bad(sc_def[0], 'the whole parent adder is handed to the sub-vector (not sliced)', 'sub-scaling')
+        else:
+            for d in sliced:
+                guard = astx.enclosing(d.ast, (ast.If,))
+                if guard is None or astx.dump(guard.test) != _K(f'{adder} is not None') or \
+                        not astx.in_body(d.ast, guard, 'body'):
+                    chk.unsure(d.ast, 'adder slicing is not guarded by `adder is not None`')
+    elif not (isinstance(e1, ast.Subscript) and is_name(e1.value, adder)):
+        chk.unsure(sc_def[0], f'adder `{astx.src(e1)}`')
+    at_sc = g.nodes_of(sc_def[0])[0]
+    if g.must_pass([g.entry], [at_sc], [n for st in (pslice,) for n in g.nodes_of(st)] +
+                   [n for n in g.where(lambda n: n.kind == 'stmt' and isinstance(n.ast, ast.Assign) and
+                                       any(astx.path(t) == PSLICE for t in n.ast.targets))],
+                   labels=cfgm.noexc) is not None:
+        chk.bad(sc_def[0], f'{PSLICE} may be unset when the scaling arrays are cut', 'sub-scaling')
+    chk.ok(sc_def[0], f'scaler and adder are {par}\'s arrays cut with {PSLICE}')
+
+
+# --------------------------------------------------------------------------- who
+WRITERS = {
+    (VEC, 'Vector.__init__'): {'_views': 'empty table before _initialize_data', '_data': 'None before allocation'},
+    (DVEC, 'DefaultVector._initialize_data'): {'_views': 'the variable table', '_data': 'allocation / parent view'},
+    (VEC, '_VecData.__init__'): {'view': 'None before set_view', 'flat': 'None before set_view'},
+    (VEC, '_VecData.set_view'): {'view': 'the view itself', 'flat': 'the flat view itself'},
+}
+WATCHED = ('_data', '_views', 'view', 'flat')
+
+
+@rule('C33.who', floor=10)
+def who(repo, out):
+    """_data, _views, .view and .flat are rebound only by the initialisers (everything else stores in place)."""
+    for rel in (VEC, DVEC):
+        m = repo.module(rel)
+        for f in m.funcs.values():
+            for st in astx.walk_stmts(f.node.body):
+                if not isinstance(st, (ast.Assign, ast.AnnAssign, ast.Delete)):
+                    continue
+                for t in astx.assigned_targets(st):
+                    if isinstance(t, ast.Attribute) and t.attr in WATCHED:
+                        reason = WRITERS.get((rel, f.qualname), {}).get(t.attr)
+                        if reason:
+                            out.ok(f, st, reason)
+                        else:
+                            out.bad(f, st, f'{f.qualname} rebinds `{astx.src(t)}`: views, parent and child vectors '
+                                    'that alias the old array no longer see this vector\'s data (use an in-place '
+                                    'store `[...] =`)', key=f'rebind-{t.attr}')
+
+
+# --------------------------------------------------------------------------- roundtrip (= C08.vec)
+@rule('C33.roundtrip', floor=3)
+def roundtrip(repo, out):
+    """scale_to_norm/scale_to_phys and _scale_forward/_scale_reverse are exact inverses (C08.vec)."""
+    try:
+        from . import C08 as _c08
+    except Exception as e:   # pragma: no cover
+        raise AnalysisError(f'C08 rule module not importable: {e}')
+    _c08.vec(repo, out)
+
+
+# --------------------------------------------------------------------------- self-test
+_IADD = "        data = self.asarray()\n        data[idxs] += val"
+_ISUB = "        data = self.asarray()\n        data[idxs] -= val"
+_IMUL = "        data = self.asarray()\n        data[idxs] *= val"
+_LAY = ("            end += shape_to_len(shape)\n            views[name] = _VecData(shape, (start, end))\n"
+        "            start = end\n")
+_LV = ("            end += vinfo.size\n            dct[name[pathlen:]] = (arr[start:end].reshape(vinfo.view.shape), "
+       "vinfo.is_scalar)\n            start = end\n")
+
+selftest(
+    'C33',
+    # ---- opname
+    Mutant('isub-adds', DVEC, _ISUB, "        data = self.asarray()\n        data[idxs] += val", 'C33.opname'),
+    Mutant('iadd-ignores-idxs', DVEC, _IADD, "        data = self.asarray()\n        data += val", 'C33.opname'),
+    Mutant('imul-overwrites', DVEC, _IMUL, "        data = self.asarray()\n        data[idxs] = val", 'C33.opname'),
+    Mutant('iadd-on-copy', DVEC, _IADD, "        data = self.asarray(copy=True)\n        data[idxs] += val",
+           'C33.opname'),
+    Mutant('imul-rebinds', DVEC, _IMUL, "        data = self.asarray()\n        data = data[idxs] * val", 'C33.opname'),
+    Mutant('isub-wrong-operand', DVEC, _ISUB, "        data = self.asarray()\n        data[idxs] -= data[idxs]",
+           'C33.opname'),
+    Mutant('dunder-isub-delegates-iadd', DVEC, "            self.isub(vec.asarray())", "            self.iadd(vec.asarray())",
+           'C33.opname'),
+    Mutant('dunder-imul-scalar-adds', DVEC, "            data = self.asarray()\n            data *= vec",
+           "            data = self.asarray()\n            data += vec", 'C33.opname'),
+    Mutant('dunder-iadd-no-return', DVEC, "            data += vec\n        return self", "            data += vec",
+           'C33.opname'),
+    Mutant('dunder-isub-self-operand', DVEC, "            self.isub(vec.asarray())", "            self.isub(self.asarray())",
+           'C33.opname'),
+    Mutant('scal-vec-drops-scalar', DVEC, "        data += (val * vec.asarray())", "        data += vec.asarray()",
+           'C33.opname'),
+    Mutant('scal-vec-rebinds', DVEC, "        data += (val * vec.asarray())", "        data = data + (val * vec.asarray())",
+           'C33.opname'),
+    Mutant('scal-vec-sum', DVEC, "        data += (val * vec.asarray())", "        data += (val + vec.asarray())",
+           'C33.opname'),
+    Mutant('set-val-accumulates', DVEC, "        self._data[idxs] = val", "        self._data[idxs] += val", 'C33.opname'),
+    Mutant('set-val-rebinds', DVEC, "        self._data[idxs] = val", "        self._data = val", ['C33.opname', 'C33.who']),
+    Mutant('set-val-default', DVEC, "    def set_val(self, val, idxs=_full_slice):", "    def set_val(self, val, idxs=slice(1)):",
+           'C33.opname'),
+    Mutant('set-vec-self', DVEC, "        self.set_val(vec.asarray())", "        self.set_val(self.asarray())", 'C33.opname'),
+    Mutant('dot-self-self', DVEC, "        return np.dot(self.asarray(), vec.asarray())",
+           "        return np.dot(self.asarray(), self.asarray())", 'C33.opname'),
+    Mutant('norm-ord-1', DVEC, "        return np.linalg.norm(self.asarray())", "        return np.linalg.norm(self.asarray(), 1)",
+           'C33.opname'),
+    Mutant('norm-squared', DVEC, "        return np.linalg.norm(self.asarray())",
+           "        return np.dot(self.asarray(), self.asarray())", 'C33.opname'),
+    Mutant('add-to-slice-subtracts', VEC, "        self.asarray()[slc] += val.flat", "        self.asarray()[slc] -= val.flat",
+           'C33.opname'),
+    Mutant('get-slice-whole', VEC, "        return self.asarray()[slc]", "        return self.asarray()", 'C33.opname'),
+    # ---- alias
+    Mutant('asarray-copy-inverted', DVEC, "        if copy:\n            return arr.copy()", "        if not copy:\n            return arr.copy()",
+           'C33.alias'),
+    Mutant('asarray-always-copy', DVEC, "        if copy:\n            return arr.copy()\n\n        return arr",
+           "        return arr.copy()", 'C33.alias'),
+    Mutant('asarray-cs-real', DVEC, "        if self._under_complex_step:\n            arr = self._data\n        else:",
+           "        if self._under_complex_step:\n            arr = self._data.real\n        else:", 'C33.alias'),
+    Mutant('asarray-nocs-complex', DVEC, "            arr = self._data.real\n", "            arr = self._data\n", 'C33.alias'),
+    Mutant('get-data-swapped', DVEC, "        return self._data if self._under_complex_step else self._data.real",
+           "        return self._data.real if self._under_complex_step else self._data", 'C33.alias'),
+    Mutant('getval-flat-cs-real', VEC, "            if self._under_complex_step:\n                return self._views[name].flat\n",
+           "            if self._under_complex_step:\n                return self._views[name].flat.real\n", 'C33.alias'),
+    Mutant('getval-flat-returns-view', VEC, "                return self._views[name].flat\n            else:\n                return self._views[name].flat.real",
+           "                return self._views[name].view\n            else:\n                return self._views[name].view.real", 'C33.alias'),
+    Mutant('getval-scalar-cs-real', VEC, "            return vinfo.view.item() if self._under_complex_step else vinfo.view.item().real",
+           "            return vinfo.view.item().real", 'C33.alias'),
+    Mutant('setval-swapped', VEC, "        if self._under_complex_step:\n            self._views[name].view[idx] = val\n        else:\n            self._views[name].view.real[idx] = val",
+           "        if self._under_complex_step:\n            self._views[name].view.real[idx] = val\n        else:\n            self._views[name].view[idx] = val", 'C33.alias'),
+    Mutant('setval-ignores-idx', VEC, "            self._views[name].view[idx] = val\n        else:\n            self._views[name].view.real[idx] = val",
+           "            self._views[name].view[:] = val\n        else:\n            self._views[name].view.real[:] = val", 'C33.alias'),
+    Mutant('values-cs-real', VEC, "                    yield vinfo.view.item() if vinfo.is_scalar else vinfo.view\n",
+           "                    yield vinfo.view.item().real if vinfo.is_scalar else vinfo.view.real\n", 'C33.alias'),
+    Mutant('items-nocs-complex', VEC, "                    yield n[plen:], vinfo.view.item().real if vinfo.is_scalar else vinfo.view.real",
+           "                    yield n[plen:], vinfo.view.item().real if vinfo.is_scalar else vinfo.view", 'C33.alias'),
+    Mutant('item-iter-flat-vs-view', VEC, "                    yield name, vinfo.flat.real", "                    yield name, vinfo.view.real",
+           'C33.alias'),
+    Mutant('iadd-typo-assign', DVEC, _IADD, "        data = self.asarray()\n        data[idxs] = +val", 'C33.opname'),
+    Mutant('scal-vec-self', DVEC, "        data += (val * vec.asarray())", "        data += (val * self.asarray())", 'C33.opname'),
+    Mutant('dunder-imul-vector-unindexed-add', DVEC, "            self.imul(vec.asarray())", "            self.iadd(vec.asarray())", 'C33.opname'),
+    Mutant('item-iter-cs-real', VEC, "                for name, vinfo in self._views.items():\n                    yield name, vinfo.flat\n",
+           "                for name, vinfo in self._views.items():\n                    yield name, vinfo.flat.real\n", 'C33.alias'),
+    Mutant('asarray-default-copy', DVEC, "    def asarray(self, copy=False):", "    def asarray(self, copy=True):", 'C33.alias'),
+    # ---- layout
+    Mutant('layout-no-advance', DVEC, _LAY, "            end += shape_to_len(shape)\n            views[name] = _VecData(shape, (start, end))\n",
+           'C33.layout'),
+    Mutant('layout-swapped-range', DVEC, "_VecData(shape, (start, end))", "_VecData(shape, (end, start))", 'C33.layout'),
+    Mutant('layout-late-increment', DVEC, _LAY, "            views[name] = _VecData(shape, (start, end))\n            end += shape_to_len(shape)\n            start = end\n",
+           'C33.layout'),
+    Mutant('layout-assign-not-add', DVEC, "            end += shape_to_len(shape)", "            end = shape_to_len(shape)", 'C33.layout'),
+    Mutant('layout-start-one', DVEC, "        start = end = 0\n        for name, shape", "        start = end = 1\n        for name, shape",
+           'C33.layout'),
+    Mutant('local-views-no-advance', VEC, _LV, _LV.replace("            start = end\n", ""), 'C33.layout'),
+    Mutant('local-views-overlap', VEC, _LV, _LV.replace("start = end", "start = end - 1"), 'C33.layout'),
+    # ---- view
+    Mutant('view-copy', VEC, "        vflat = v = data[start:end]", "        vflat = v = data[start:end].copy()", 'C33.view'),
+    Mutant('view-bounds-swapped', VEC, "        start, end = self.range\n        vflat", "        end, start = self.range\n        vflat",
+           'C33.view'),
+    Mutant('view-never-reshaped', VEC, "            v = vflat.view().reshape(self.shape)", "            v = vflat.view()", 'C33.view'),
+    Mutant('view-reshape-of-copy', VEC, "            v = vflat.view().reshape(self.shape)", "            v = vflat.copy().reshape(self.shape)",
+           'C33.view'),
+    Mutant('vecdata-size', VEC, "        self.size = rng[1] - rng[0]", "        self.size = rng[1]", 'C33.view'),
+    Mutant('bind-copy', DVEC, "        data = self._data\n        for vinfo in views.values():", "        data = self._data.copy()\n        for vinfo in views.values():",
+           'C33.view'),
+    Mutant('bind-real', DVEC, "        data = self._data\n        for vinfo in views.values():", "        data = self._data.real\n        for vinfo in views.values():",
+           'C33.view'),
+    Mutant('bind-then-rebind', DVEC, "            vinfo.set_view(data)\n", "            vinfo.set_view(data)\n        self._data = self._data.astype(complex if self._alloc_complex else float)\n",
+           'C33.view'),
+    Mutant('bind-root-only', DVEC, "        data = self._data\n        for vinfo in views.values():\n            vinfo.set_view(data)",
+           "        data = self._data\n        if parent_vector is None:\n            for vinfo in views.values():\n                vinfo.set_view(data)", 'C33.view'),
+    # ---- subvec
+    Mutant('sub-upper-is-total', DVEC, "self._parent_slice = slice(start, start + end)", "self._parent_slice = slice(start, end)",
+           'C33.subvec'),
+    Mutant('sub-offset-range-end', DVEC, "start = parent_vector._views[name].range[0]", "start = parent_vector._views[name].range[1]",
+           'C33.subvec'),
+    Mutant('sub-data-copy', DVEC, "self._data = parent_vector._data[self._parent_slice]", "self._data = parent_vector._data[self._parent_slice].copy()",
+           'C33.subvec'),
+    Mutant('sub-no-break', DVEC, "                self._data = parent_vector._data[self._parent_slice]\n                break\n            else:",
+           "                self._data = parent_vector._data[self._parent_slice]\n            else:", 'C33.subvec'),
+    Mutant('sub-scaler-from-zero', DVEC, "(parent_scaler[self._parent_slice], parent_adder)", "(parent_scaler[:end], parent_adder)",
+           'C33.subvec'),
+    Mutant('sub-adder-unsliced', DVEC, "                if parent_adder is not None:\n                    parent_adder = parent_adder[self._parent_slice]\n",
+           "", 'C33.subvec'),
+    Mutant('root-size', DVEC, "            self._data = np.zeros(end, dtype=complex if self._alloc_complex else float)\n        else:",
+           "            self._data = np.zeros(end - 1, dtype=complex if self._alloc_complex else float)\n        else:", 'C33.subvec'),
+    # ---- who
+    Mutant('set-vals-rebinds-flat', VEC, "            vinfo.flat[:] = val if vinfo.is_scalar else val.ravel()",
+           "            vinfo.flat = val if vinfo.is_scalar else val.ravel()", 'C33.who'),
+    Mutant('set-vec-rebinds-data', DVEC, "        self.set_val(vec.asarray())", "        self._data = vec.asarray(copy=True)",
+           ['C33.who', 'C33.opname']),
+    Mutant('cs-mode-reallocates', VEC, "        self._under_complex_step = active", "        self._under_complex_step = active\n        self._data = self._data.astype(complex if active else float)",
+           'C33.who'),
+    # ---- roundtrip (C08.vec)
+    Mutant('scale-reverse-order', DVEC, "        data *= scaler\n        if adder is not None:  # nonlinear only\n            data += adder",
+           "        if adder is not None:  # nonlinear only\n            data += adder\n        data *= scaler", 'C33.roundtrip'),
+    Mutant('scale-on-copy', DVEC, "        data = self.asarray()\n        data *= scaler", "        data = self.asarray(copy=True)\n        data *= scaler",
+           'C33.roundtrip'),
+    Mutant('scale-phys-args', DVEC, "                self._scale_reverse(self._nlvec._scaling[0], None)", "                self._scale_reverse(*self._scaling)",
+           'C33.roundtrip'),
+    Mutant('scale-same-primitive', DVEC, "        if mode == 'rev':\n            self._scale_forward(*self._scaling)",
+           "        if mode == 'rev':\n            self._scale_reverse(*self._scaling)", 'C33.roundtrip'),
+    # ---- twins
+    Twin('twin-iadd-rename', DVEC, _IADD, "        arr = self.asarray()\n        arr[idxs] += val"),
+    Twin('twin-isub-direct', DVEC, _ISUB, "        self.asarray()[idxs] -= val"),
+    Twin('twin-imul-copy-false', DVEC, _IMUL, "        data = self.asarray(copy=False)\n        data[idxs] *= val"),
+    Twin('twin-dunder-flipped', DVEC, "        if isinstance(vec, Vector):\n            self.iadd(vec.asarray())\n        else:\n            data = self.asarray()\n            data += vec\n        return self",
+         "        if not isinstance(vec, Vector):\n            data = self.asarray()\n            data += vec\n            return self\n        self.iadd(vec.asarray())\n        return self"),
+    Twin('twin-dunder-direct', DVEC, "            self.imul(vec.asarray())", "            arr = self.asarray()\n            arr *= vec.asarray()"),
+    Twin('twin-scal-vec-commuted', DVEC, "        data += (val * vec.asarray())", "        other = vec.asarray()\n        data += other * val"),
+    Twin('twin-dot-method', DVEC, "        return np.dot(self.asarray(), vec.asarray())", "        a = self.asarray()\n        return a.dot(vec.asarray())"),
+    Twin('twin-norm-sqrt', DVEC, "        return np.linalg.norm(self.asarray())", "        x = self.asarray()\n        return np.sqrt(np.dot(x, x))"),
+    Twin('twin-set-val-asarray', DVEC, "        self.set_val(vec.asarray())", "        self._data[:] = vec.asarray()"),
+    Twin('twin-asarray-ifexp', DVEC, "        if copy:\n            return arr.copy()\n\n        return arr", "        return arr.copy() if copy else arr"),
+    Twin('twin-asarray-flipped', DVEC, "        if self._under_complex_step:\n            arr = self._data\n        else:\n            arr = self._data.real\n",
+         "        if not self._under_complex_step:\n            arr = self._data.real\n        else:\n            arr = self._data\n"),
+    Twin('twin-getval-local', VEC, "        if flat:\n            if self._under_complex_step:\n                return self._views[name].flat\n            else:\n                return self._views[name].flat.real\n\n        vinfo = self._views[name]\n",
+         "        vinfo = self._views[name]\n        if flat:\n            return vinfo.flat if self._under_complex_step else vinfo.flat.real\n\n"),
+    Twin('twin-setval-flipped', VEC, "        if self._under_complex_step:\n            self._views[name].view[idx] = val\n        else:\n            self._views[name].view.real[idx] = val",
+         "        v = self._views[name].view\n        if not self._under_complex_step:\n            v.real[idx] = val\n        else:\n            v[idx] = val"),
+    Twin('twin-layout-explicit', DVEC, _LAY, "            end = start + shape_to_len(shape)\n            views[name] = _VecData(shape, (start, end))\n            start = end\n"),
+    Twin('twin-layout-size-local', DVEC, _LAY, "            size = shape_to_len(shape)\n            views[name] = _VecData(shape, (end, end + size))\n            end += size\n            start = end\n"),
+    Twin('twin-local-views-reorder', VEC, _LV, "            end = start + vinfo.size\n            dct[name[pathlen:]] = (arr[start:end].reshape(vinfo.view.shape), vinfo.is_scalar)\n            start += vinfo.size\n"),
+    Twin('twin-set-view-direct', VEC, "        start, end = self.range\n        vflat = v = data[start:end]", "        vflat = v = data[self.range[0]:self.range[1]]"),
+    Twin('twin-set-view-reshape', VEC, "            v = vflat.view().reshape(self.shape)", "            v = vflat.reshape(self.shape)"),
+    Twin('twin-bind-direct', DVEC, "        data = self._data\n        for vinfo in views.values():\n            vinfo.set_view(data)",
+         "        for info in self._views.values():\n            info.set_view(self._data)"),
+    Twin('twin-sub-offset-local', DVEC, "                start = parent_vector._views[name].range[0]\n                self._parent_slice = slice(start, start + end)",
+         "                off = parent_vector._views[name].range[0]\n                self._parent_slice = slice(off, off + end)"),
+    Twin('twin-root-flipped', DVEC, "        if parent_vector is None:  # this is a root vector\n            self._parent_slice = slice(0, end)\n            self._data = np.zeros(end, dtype=complex if self._alloc_complex else float)\n        else:",
+         "        if parent_vector is None:  # this is a root vector\n            self._data = np.zeros(end, dtype=complex if self._alloc_complex else float)\n            self._parent_slice = slice(0, end)\n        else:"),
+    Twin('twin-norm-ord2', DVEC, "        return np.linalg.norm(self.asarray())", "        return np.linalg.norm(self.asarray(), ord=2)"),
+    Twin('twin-asarray-compact', DVEC, "        if self._under_complex_step:\n            arr = self._data\n        else:\n            arr = self._data.real\n\n        if copy:\n            return arr.copy()\n\n        return arr",
+         "        arr = self._data if self._under_complex_step else self._data.real\n        return np.array(arr) if copy else arr"),
+    Twin('twin-set-view-flipped', VEC, "        if self.shape != vflat.shape and self.shape != ():\n            v = vflat.view().reshape(self.shape)\n",
+         "        if self.shape == () or self.shape == vflat.shape:\n            v = vflat\n        else:\n            v = vflat.reshape(self.shape)\n"),
+    Twin('twin-vecdata-unpack', VEC, "        self.size = rng[1] - rng[0]", "        lo, hi = rng\n        self.size = hi - lo"),
+    Twin('twin-values-cs-local', VEC, "        if self._under_complex_step:\n            for n, vinfo in self._views.items():\n                if n in self._names:\n                    yield vinfo.view.item() if vinfo.is_scalar else vinfo.view\n",
+         "        cs = self._under_complex_step\n        if cs:\n            for n, vinfo in self._views.items():\n                if n in self._names:\n                    yield vinfo.view.item() if vinfo.is_scalar else vinfo.view\n"),
+    Twin('twin-add-to-slice-ravel', VEC, "        self.asarray()[slc] += val.flat", "        arr = self.asarray()\n        arr[slc] += val.ravel()"),
+)
